@@ -5,6 +5,19 @@ rules and the delivery format (nothing from /verif). The sub-agents are then sta
 import json, os, subprocess, sys
 root, wave = sys.argv[1], int(sys.argv[2])
 EMPHASIS = {
+ 12: """   * COMPENSATING or self-consistent defects: a change on a path that BOTH sides of an obvious self-check share, so that round trips, "parse what you wrote", "both stores agree" or "the flag agrees
+     with a strict re-parse" still come out consistent while the absolute result is wrong against the specification / documentation (a writer and its reader changed together, a helper used by
+     both implementations, a normalisation applied on the way in and on the way out),
+   * the clause of the property statement that is EASIEST TO OVERLOOK: re-read the statement and pick a sub-clause, a "hence", an "also", a parenthesis or a listed special case that a checker is
+     least likely to have covered, and break exactly that,
+   * a threshold in SIZE or COUNT: behaviour that changes at the 2nd / 10th / 11th / 100th / 256th element, at a string length, at a nesting depth, after N calls (a bounded cache evicting, a counter,
+     a chunked loop, a slice with a hard-coded bound, pagination-like batching),
+   * stable ORDER and TIES: a sort made unstable or keyed differently, min / max picking another of several equal candidates, "first match" becoming "last match", de-duplication keeping another
+     representative, an order that used to be insertion order becoming sorted order (or the reverse),
+   * the LESS-USED HALF of an API pair: the 2.0 twin of a 2.1 function, the sink of a store, the `MemorySource` / `MemorySink` classes next to `MemoryStore`, `FileSystemSource` used directly, object methods
+     next to module functions, `Environment` methods next to the objects they wrap, positional next to keyword arguments,
+   * an input that is VALID BUT UNUSUAL for the specification (optional property present with its default value, empty-but-legal strings, maximal lengths, the rarest vocabulary entry, the last entry of
+     a table, properties in reverse order, a reference to the object itself, two list elements that are equal).""",
  11: """   * a defect that needs THREE things to coincide (three properties present together, a flag plus a nesting level plus an object form, three members of a federation), or a HISTORY of
      four or more operations on the same object / store / registry / module (the fourth call misbehaves because of what the first three left behind) - something a check that
      tries "one or two departures from the ordinary" would not reach,
